@@ -132,3 +132,36 @@ class OpBatch:
             if rep != obs_s:
                 res.disagree(f"{label}: `{m['op']}` on the implementation differs from the model", dict(request=line, info=m['info']),
                              obs_s, rep, dict(site_of(L), op=m['op']))
+
+
+class guard:
+    """context manager: an exception escaping from the implementation while evaluating a well-formed case is a
+    violation with that case as the replay (not a crash of the check)"""
+    def __init__(self, res, label, site=None, inp=None):
+        self.res, self.label, self.site, self.inp = res, label, site or {}, inp
+
+    def __enter__(self):
+        return self
+
+    def __exit__(self, et, ev, tb):
+        if et is None or not issubclass(et, Exception):
+            return False
+        if issubclass(et, core.DriverError):
+            return False
+        import traceback
+        where = traceback.extract_tb(tb)[-1]
+        self.res.violate(f'the library raises {et.__name__} while evaluating {self.label}', self.inp if self.inp is not None else dict(self.site),
+                         f'{et.__name__}: {ev}'[:300], 'a value', dict(self.site, op='raises:' + self.label, error=et.__name__,
+                                                                     at=f'{where.filename.split("/")[-1]}:{where.name}'))
+        return True
+
+
+def gcall(res, fn, *args, **kw):
+    """call a per-layout check under `guard`; the layout (if any) among the arguments gives the replay site"""
+    site = {}
+    for a in args:
+        if hasattr(a, 'gaDims') and hasattr(a, 'sig'):
+            site = site_of(a)
+            break
+    with guard(res, fn.__name__, site):
+        fn(res, *args, **kw)
